@@ -122,6 +122,13 @@ func VerifC23Migrate(h *verifrt.H) {
 		return
 	}
 
+	if room >= 0 {
+		// the limit was not reached: same run as the fault-free path, which is checked there
+		// (the model's gob token is shorter than the real encoding, so "limit not reached"
+		// is not a statement about the same byte count natively)
+		h.Cover("fault-not-reached")
+		return
+	}
 	if len(recs) == 0 {
 		h.Assert(!h.FileExists(hyd), "empty-swamp-creates-no-file")
 		h.Cover("empty")
